@@ -515,6 +515,10 @@ func checkC15(c *Ctx) {
 	}
 	c.checkFlushCompletesMessage("O8 flush-completes-message")
 	c.checkNoStandingDeadline("O9 no-standing-deadline")
+	// "a failed message never poisons later ones" one level up: the reporter drops a batch whose emit failed
+	// (kept, it is written again in front of the next batch, which then exceeds the transport's limit, fails
+	// and is kept in turn) - shared with C13 O2
+	c.shared(checkC13, map[string]string{"O2 batching": "O7 failed-batch-dropped"})
 }
 
 func asInstr(v ssa.Value) ssa.Instruction {
